@@ -143,7 +143,7 @@ class Ctx:
         os.makedirs(evdir, exist_ok=True)
         evp = os.path.join(evdir, self.prop + ".json")
         with open(evp + ".tmp", "w") as fh:
-            json.dump(ev, fh, indent=1)
+            json.dump(ev, fh, indent=1, default=repr)
         os.replace(evp + ".tmp", evp)
         for r in self.rules:
             st = "ok" if not r.violations else f"{len(r.violations)} violation(s)"
@@ -154,7 +154,7 @@ class Ctx:
             for i, v in enumerate(new_v):
                 path = os.path.join(rdir, f"{self.prop}-{i}.json")
                 with open(path, "w") as fh:
-                    json.dump({"property": self.prop, **v}, fh, indent=1)
+                    json.dump({"property": self.prop, **v}, fh, indent=1, default=repr)
                 print(f"violation: rule={v['rule']} key={v['key']} :: {v['msg']}" + (f" @ {v['where']}" if v.get("where") else ""))
                 print(f"VIOLATION property={self.prop} replay={path}")
             return 1
